@@ -9,6 +9,7 @@ itself is not modelled here; the tie is impl-vs-proved-spec (see DESIGN.md).
 -/
 import LlgVerif.Proofs.CfgPrefixMain
 import LlgVerif.Proofs.Earley
+import LlgVerif.Proofs.EarleyPure
 namespace LlgVerif
 namespace Cfg
 
@@ -73,5 +74,77 @@ theorem c05_earley_rows_sound (g : Ey.CG) (hw : g.wf = true) (lexs : List (List 
 theorem c05_earley_accept_sound (g : Ey.CG) (hw : g.wf = true) (lexs : List (List Nat))
     (h : Ey.accepting g (Ey.runRows g lexs) = true) : Ey.Der g lexs g.start 0 lexs.length :=
   Ey.accepting_sound g (Ey.wf_of_check g hw) lexs h
+
+/-! ### completeness of the rows
+
+`Ey.Want` is the set of Earley items given by the inference rules (start, prediction, nullable
+advance, scan, completion over earlier rows).  Rows that pass the executable certificate check
+`Ey.rowsClosed` — evaluated by the driver on the rows it computed, so the fuel of the worklist is
+not trusted — hold every such item; and the item set is complete for derivations, the completion the
+code skips (items that start in the current row) being covered by the nullable advance because the
+flags are closed under the rules (`CG.nullableClosed`). -/
+
+theorem c05_earley_rows_complete (g : Ey.CG) (lexs : List (List Nat))
+    (hc : Ey.rowsClosed g lexs (Ey.runRows g lexs) = true) (j : Nat) (it : Ey.Item)
+    (hwant : Ey.Want g lexs j it) (hj : j ≤ lexs.length) : it ∈ (Ey.runRows g lexs).getD j [] := by
+  have hlen := (Ey.runRows_len g lexs)
+  exact Ey.closed_complete g lexs _ (Ey.closed_of_check g lexs _ hc) j it hwant (by omega)
+
+/-- the compiled grammar accepts the scanned lexeme sets: a rule of the start symbol derives all of
+them.  `Ey.Seq`/`Ey.Der` read a nullable flag as an ε-rule of the symbol — `CGrammar` drops empty
+rules and keeps only the flag ("we handle the empty rule separately via is_nullable field"), so this
+*is* the compiled grammar's derivation relation. -/
+def Ey.Accepts (g : Ey.CG) (lexs : List (List Nat)) : Prop :=
+  ∃ r ∈ (g.sym g.start).rules, ∃ p, Ey.Seq g lexs r p 0 lexs.length ∧ g.atDot p = 0
+
+/-- **C05 at the level of the parser's rows**: the last row is accepting exactly when the compiled
+grammar derives the scanned lexemes. -/
+theorem c05_earley_accept_iff (g : Ey.CG) (hw : g.wf = true) (hn : g.nullableClosed = true)
+    (lexs : List (List Nat)) (hc : Ey.rowsClosed g lexs (Ey.runRows g lexs) = true) :
+    Ey.accepting g (Ey.runRows g lexs) = true ↔ Ey.Accepts g lexs := by
+  have hW := Ey.wf_of_check g hw
+  obtain ⟨hok, hlen⟩ := Ey.runRows_ok g hW lexs
+  constructor
+  · intro h
+    unfold Ey.accepting at h
+    simp only [List.any_eq_true, Bool.and_eq_true, decide_eq_true_eq] at h
+    obtain ⟨it, hit, ⟨hdot, hz⟩, hlhs⟩ := h
+    rw [hlen] at hit
+    have e : lexs.length + 1 - 1 = lexs.length := by omega
+    rw [e] at hit
+    obtain ⟨_, r, hr, hseq⟩ := hok lexs.length (by rw [hlen]; omega) it hit
+    rw [hlhs] at hr
+    rw [hz] at hseq
+    exact ⟨r, hr, it.1, hseq, hdot⟩
+  · rintro ⟨r, hr, p, hseq, hdot⟩
+    exact Ey.accepting_complete g hW (Ey.nullClosed_of_check g hn) lexs _
+      (Ey.closed_of_check g lexs _ hc) hlen hr hseq hdot
+
+/-- the same with derivations by the rules alone, for grammars whose flags are all derived
+(`CG.nullableSound`: no dropped empty rule) -/
+def Ey.AcceptsP (g : Ey.CG) (lexs : List (List Nat)) : Prop :=
+  ∃ r ∈ (g.sym g.start).rules, ∃ p, Ey.SeqP g lexs r p 0 lexs.length ∧ g.atDot p = 0
+
+theorem c05_earley_accept_iff_pure (g : Ey.CG) (hw : g.wf = true) (hn : g.nullableClosed = true)
+    (hs : g.nullableSound = true) (lexs : List (List Nat))
+    (hc : Ey.rowsClosed g lexs (Ey.runRows g lexs) = true) :
+    Ey.accepting g (Ey.runRows g lexs) = true ↔ Ey.AcceptsP g lexs := by
+  rw [c05_earley_accept_iff g hw hn lexs hc]
+  constructor
+  · rintro ⟨r, hr, p, hseq, hdot⟩
+    exact ⟨r, hr, p, Ey.seqP_of_seq (Ey.nullSound_of_check g hs) hseq, hdot⟩
+  · rintro ⟨r, hr, p, hseq, hdot⟩
+    exact ⟨r, hr, p, Ey.seq_of_seqP hseq, hdot⟩
+
+/-! non-vacuity: `S → a S | ε` as a compiled grammar (symbol 0 is the null symbol, rules start at
+multiples of 4), input `a a`: all checks hold and the last row accepts -/
+def exCG : Ey.CG :=
+  { start := 1
+    rhs := #[0, 0, 0, 0, 2, 1, 0, 0, 0, 0, 0, 0]
+    lhsOf := #[0, 1, 1]
+    syms := #[⟨[], false, none⟩, ⟨[4, 8], true, none⟩, ⟨[], false, some 0⟩] }
+example : exCG.wf = true ∧ exCG.nullableClosed = true ∧ exCG.nullableSound = true ∧
+    Ey.rowsClosed exCG [[0], [0]] (Ey.runRows exCG [[0], [0]]) = true ∧
+    Ey.accepting exCG (Ey.runRows exCG [[0], [0]]) = true := by decide
 
 end LlgVerif
